@@ -16,7 +16,10 @@
 //	property failure that needs the other callers: PropFail key concurrent-<op>, the whole scenario is the replay.
 //
 // Job forms (tokens): pk <script> <testnet> | obj <ver> <hash160> | addr <string hex> | b58 <bytes> |
-// seg <hrp> <ver> <prog> | b32 <hrp> <data> <m> | wif <ver> <key32> <compr>.
+// seg <hrp> <ver> <prog> | b32 <hrp> <data> <m> | wif <ver> <key32> <compr> |
+// rej addr|b58|b32|wif <string hex> | rej seg <hrp> <string hex>   (REFUSAL paths: a string the reference calls invalid -
+// 1..4 edits or one non-ASCII alias of a character of an accepted string - must be refused by the decoder also while
+// other goroutines run their own accept and refuse jobs; family "refuse", and one in seven jobs of "mixed").
 package main
 
 import (
@@ -94,6 +97,33 @@ func concRun(j concJob) (line string) {
 		s := bech32.Encode(j[1], unhexTok(j[2]), j[3] == "1")
 		h, d, m := bech32.Decode(s)
 		return fmt.Sprintf("s=%s back=%s:%s:%s", s, h, hexTok(d), b2s(m))
+	case "rej":
+		s := string(unhexTok(j[len(j)-1]))
+		switch j[1] {
+		case "addr":
+			if im := implAddr(s); im.ok || im.panicked {
+				return im.line
+			}
+		case "b58":
+			if d := btc.Decodeb58(s); d != nil {
+				return "accepted " + vlib.Hex(d)
+			}
+		case "b32":
+			if h, d, m := bech32.Decode(s); h != "" || d != nil {
+				return fmt.Sprintf("accepted %s:%s:%s", h, hexTok(d), b2s(m))
+			}
+		case "seg":
+			if v, p, e := bech32.SegwitDecode(j[2], s); e == nil {
+				return fmt.Sprintf("accepted %d:%s", v, hexTok(p))
+			}
+		case "wif":
+			if b, e := btc.DecodePrivateAddr(s); e == nil {
+				return fmt.Sprintf("accepted %d:%x:%s", b.Version, b.Key, b2s(b.IsCompressed()))
+			}
+		default:
+			return "bad-job"
+		}
+		return "refused"
 	case "wif":
 		ver, _ := strconv.Atoi(j[1])
 		pa := btc.NewPrivateAddr(unhexTok(j[2]), byte(ver), j[3] == "1")
@@ -157,6 +187,8 @@ func concWant(j concJob) string {
 			d5 = append(d5, int(d))
 		}
 		return fmt.Sprintf("s=%s back=%s:%s:%s", encodeRaw(j[1], d5, j[3] == "1"), j[1], j[2], j[3])
+	case "rej":
+		return "refused" // the generator only emits strings the reference calls invalid (refInvalid)
 	case "wif":
 		ver, _ := strconv.Atoi(j[1])
 		pl := append([]byte{byte(ver)}, unhexTok(j[2])...)
@@ -184,6 +216,9 @@ func concDescribe(j concJob) string {
 		return "bech32.Decode(Encode(" + j[1] + ", " + j[2] + ", m=" + j[3] + "))"
 	case "wif":
 		return "DecodePrivateAddr(NewPrivateAddr(" + j[2] + ", " + j[1] + ", compr=" + j[3] + ").String())"
+	case "rej":
+		fn := map[string]string{"addr": "NewAddrFromString", "b58": "Decodeb58", "b32": "bech32.Decode", "seg": "SegwitDecode", "wif": "DecodePrivateAddr"}[j[1]]
+		return fmt.Sprintf("%s(%q) [invalid by the reference: must be refused]", fn, string(unhexTok(j[len(j)-1])))
 	}
 	return strings.Join(j, " ")
 }
@@ -223,13 +258,105 @@ func concWitScript(g *vlib.Rng) []byte {
 	return append([]byte{byte(0x51 + g.Intn(16)), byte(l)}, g.Bytes(l)...)
 }
 
+// refInvalid: does the independent reference refuse s at decoder `what` (hrp only for "seg")?
+func refInvalid(what, hrp, s string) bool {
+	switch what {
+	case "addr":
+		if len(s) >= 4 {
+			if p := strings.ToLower(s[:3]); p == "bc1" || p == "tb1" {
+				ok, _, _ := refSegwitValid(p[:2], s)
+				return !ok
+			}
+			ok, _, _ := refB58CheckValid(s)
+			return !ok
+		}
+		return true
+	case "b58":
+		return len(refB58Decode(s)) == 0
+	case "b32":
+		ok, _, _, _ := refB32Decode(s)
+		return !ok
+	case "seg":
+		ok, _, _ := refSegwitValid(hrp, s)
+		return !ok
+	case "wif":
+		rw := refWif(s)
+		return !rw.ok
+	}
+	return false
+}
+
+// concReject: a refusal job. Base = an accepted string of the decoder; damaged by 1..4 ordinary edits or by one
+// non-ASCII alias of one character (byte c|0x80, or the 2-byte code point c+256); kept only when the reference refuses it.
+func concReject(g *vlib.Rng, valid []string) concJob {
+	for try := 0; try < 20; try++ {
+		what := []string{"addr", "addr", "b58", "b32", "seg", "wif"}[g.Intn(6)]
+		hrp, base := "", ""
+		switch what {
+		case "addr":
+			base = valid[g.Intn(len(valid))]
+		case "b58":
+			base = refB58Encode(g.Bytes(1 + g.Intn(40)))
+		case "b32":
+			d := make([]int, g.Intn(40))
+			for i := range d {
+				d[i] = g.Intn(32)
+			}
+			base = encodeRaw([]string{"bc", "a", "ltc"}[g.Intn(3)], d, g.Bool())
+		case "seg":
+			for base == "" || !(strings.HasPrefix(base, "bc1") || strings.HasPrefix(base, "tb1")) {
+				base = valid[g.Intn(len(valid))]
+			}
+			hrp = base[:2]
+		case "wif":
+			pl := append([]byte{byte(g.Pick(0x80, 0xef))}, wifKey(g)...)
+			if g.Bool() {
+				pl = append(pl, 1)
+			}
+			base = mkWif(pl)
+		}
+		var s string
+		if g.Chance(1, 3) && len(base) > 0 {
+			b := []byte(base)
+			i := g.Intn(len(b))
+			c := b[i]
+			var alias []byte
+			if g.Bool() {
+				alias = []byte{c | 0x80}
+			} else {
+				alias = []byte(string(rune(int(c) + 256)))
+			}
+			s = string(b[:i]) + string(alias) + string(b[i+1:])
+		} else {
+			s, _ = mutate(g, base)
+		}
+		if what == "b58" && g.Chance(1, 2) { // Base58 has no checksum: force a character outside the alphabet
+			i := g.Intn(len(s) + 1)
+			s = s[:i] + string("0OIl _"[g.Intn(6)]) + s[i:]
+		}
+		if !refInvalid(what, hrp, s) {
+			continue
+		}
+		if what == "seg" {
+			return concJob{"rej", what, hrp, hexTok([]byte(s))}
+		}
+		return concJob{"rej", what, hexTok([]byte(s))}
+	}
+	return concJob{"rej", "addr", vlib.Hex([]byte("bc1qw508d6qejxtdg4y5r3zarvary0c5xw7kv8f3t5"))}
+}
+
 func concJobOf(g *vlib.Rng, family string, valid []string) concJob {
 	tn := b2s(g.Bool())
 	pick := family
 	if family == "mixed" {
-		pick = []string{"b58addr", "b58addr", "segwit", "decode", "raw58", "wif"}[g.Intn(6)]
+		pick = []string{"b58addr", "b58addr", "segwit", "decode", "raw58", "wif", "refuse"}[g.Intn(7)]
+	}
+	if family == "refuse" && g.Chance(1, 4) { // refusals next to acceptances of the same decoders
+		pick = []string{"decode", "raw58", "segwit"}[g.Intn(3)]
 	}
 	switch pick {
+	case "refuse":
+		return concReject(g, valid)
 	case "b58addr":
 		switch g.Intn(5) {
 		case 0:
@@ -384,7 +511,7 @@ func concStreams(g *vlib.Rng, valid []string) {
 		workers, rounds int
 	}
 	var plan []sc
-	for _, f := range []string{"b58addr", "segwit", "decode", "raw58", "mixed"} {
+	for _, f := range []string{"b58addr", "segwit", "decode", "raw58", "refuse", "mixed"} {
 		for _, w := range []int{2, 8} {
 			plan = append(plan, sc{f, w, r.N(120, 1500)})
 		}
